@@ -46,6 +46,38 @@ type c17Bind struct {
 	crontab  string
 	sync     bool   // executeHookOnSynchronization
 	ns       string // namespace a kubernetes binding watches ("" = the namespace of the case)
+	qname    string // the name written after `queue:` ("" = c17QueueName(queueNo))
+}
+
+func (b *c17Bind) queueName() string {
+	if b.qname != "" {
+		return b.qname
+	}
+	return c17QueueName(b.queueNo)
+}
+
+// c17NearName: a string that is a different queue name (Go map key) but easy to mistake for `name`: another
+// case, a longer / shorter one.
+func c17NearName(name string, rng *Rng) (string, string) {
+	switch rng.Intn(5) {
+	case 0:
+		return strings.ToUpper(name), "differ-by-case-only"
+	case 1:
+		return strings.ToUpper(name[:1]) + name[1:], "differ-by-case-only"
+	case 2:
+		return name[:len(name)-1] + strings.ToUpper(name[len(name)-1:]), "differ-by-case-only"
+	case 3:
+		return name + "-x", "one-is-a-prefix-of-the-other"
+	default:
+		return name[:len(name)-1], "one-is-a-prefix-of-the-other"
+	}
+}
+
+// c17SetQueues: the queues of the set right now, by name (through the real Iterate).
+func c17SetQueues(tqs *queue.TaskQueueSet) map[string]*queue.TaskQueue {
+	m := map[string]*queue.TaskQueue{}
+	tqs.Iterate(func(q *queue.TaskQueue) { m[q.Name] = q })
+	return m
 }
 
 type c17Hook struct {
@@ -66,7 +98,7 @@ func c17WriteHook(dir, ns string, h *c17Hook, logFile string) error {
 	for _, b := range h.binds {
 		ql := ""
 		if b.queueNo > 0 || b.explicit {
-			ql = fmt.Sprintf("  queue: %s\n", c17QueueName(b.queueNo))
+			ql = fmt.Sprintf("  queue: %s\n", b.queueName())
 		}
 		if b.kube {
 			bns := ns
@@ -160,6 +192,40 @@ func c17OperatorKube(r *Run, c *Case, rng *Rng) {
 	// --- configuration: hooks, bindings, queues
 	nq := rng.Range(1, 4)
 	nh := rng.Range(1, 4)
+	// queue names: main, q1..qN; in 2 of 5 cases one of them is replaced by a near-copy of another queue's name
+	// (another case — `Q1`, `Main` —, a prefix, an extension): different map keys, hence different queues
+	names := []string{"main"}
+	for k := 1; k <= nq; k++ {
+		names = append(names, c17QueueName(k))
+	}
+	nearQ, nearOf := 0, 0
+	if rng.Chance(40) {
+		k := rng.Range(1, nq)
+		j := rng.Intn(nq + 1)
+		if j != k {
+			if v, kind := c17NearName(names[j], rng); v != "" {
+				clash := false
+				for _, o := range names {
+					clash = clash || o == v
+				}
+				if !clash {
+					names[k] = v
+					nearQ, nearOf = k, j
+					c.Note("queue-names:" + kind)
+					if j == 0 {
+						c.Note("queue-names:near-copy-of-main")
+					}
+				}
+			}
+		}
+	}
+	qName := func(k int) string {
+		if k >= 0 && k < len(names) {
+			return names[k]
+		}
+		return c17QueueName(k)
+	}
+	early := rng.Chance(20) // Shutdown() is requested during the start-up (before the first queue exists, ...), the start goes on afterwards
 	var hooks []*c17Hook
 	for i := 1; i <= nh; i++ {
 		h := &c17Hook{idx: i, name: fmt.Sprintf("h%d", i)}
@@ -171,6 +237,10 @@ func c17OperatorKube(r *Run, c *Case, rng *Rng) {
 				b.kube = true
 				b.queueNo = rng.Range(1, nq)
 			}
+			if nearQ > 0 && rng.Chance(35) {
+				b.queueNo = nearQ
+			}
+			b.qname = qName(b.queueNo)
 			if b.kube {
 				b.name = fmt.Sprintf("k%d", j)
 			} else {
@@ -180,6 +250,25 @@ func c17OperatorKube(r *Run, c *Case, rng *Rng) {
 			h.binds = append(h.binds, b)
 		}
 		hooks = append(hooks, h)
+	}
+	if nearQ > 0 {
+		// both names are in use: some binding names the one, another binding the other (either order, either kind)
+		var all []*c17Bind
+		for _, h := range hooks {
+			all = append(all, h.binds...)
+		}
+		if len(all) < 2 {
+			b := &c17Bind{name: "s9", crontab: "9 9 1 1 *"}
+			hooks[0].binds = append(hooks[0].binds, b)
+			all = append(all, b)
+		}
+		x := rng.Intn(len(all))
+		y := rng.Intn(len(all) - 1)
+		if y >= x {
+			y++
+		}
+		all[x].queueNo, all[x].qname = nearOf, qName(nearOf)
+		all[y].queueNo, all[y].qname = nearQ, qName(nearQ)
 	}
 	var desc []string
 	schedQ, kubeQ := map[int]bool{}, map[int]bool{}
@@ -191,7 +280,7 @@ func c17OperatorKube(r *Run, c *Case, rng *Rng) {
 			return
 		}
 		for _, b := range h.binds {
-			desc = append(desc, fmt.Sprintf("%s/%s->%s", h.name, b.name, c17QueueName(b.queueNo)))
+			desc = append(desc, fmt.Sprintf("%s/%s->%s", h.name, b.name, b.queueName()))
 			if b.kube {
 				kubeQ[b.queueNo] = true
 				kubeNames = append(kubeNames, b.queueNo)
@@ -288,12 +377,47 @@ func c17OperatorKube(r *Run, c *Case, rng *Rng) {
 		op.Stop()
 		time.Sleep(10 * time.Millisecond)
 	}()
-	op.VerifC03Run(func(q *queue.TaskQueue) {
+	markStop := func() {
+		if f, err := os.OpenFile(logFile, os.O_APPEND|os.O_CREATE|os.O_WRONLY, 0o644); err == nil {
+			fmt.Fprintln(f, "STOP - -")
+			f.Close()
+		}
+	}
+	tune := func(q *queue.TaskQueue) {
 		q.WaitLoopCheckInterval = time.Millisecond
 		q.DelayOnQueueIsEmpty = time.Millisecond
 		q.DelayOnRepeat = time.Millisecond
 		q.ExponentialBackoffFn = func(int) time.Duration { return 2 * time.Millisecond }
-	})
+	}
+	if early {
+		// the shutdown request comes during the start-up, between two of its queue-related steps: before the main
+		// queue exists (the set is empty), before the main queue is started, before the hook queues are created,
+		// before the events consumer runs. The start goes on: queues created afterwards must be born stopped,
+		// queues that run already stop as usual.
+		earlyStep := rng.Intn(4)
+		c.Note(fmt.Sprintf("shutdown-during-start-up:before-step-%d", earlyStep))
+		returned := true
+		op.VerifC17RunSteps(tune, func(step int) {
+			if step != earlyStep {
+				return
+			}
+			done := make(chan struct{})
+			go func() { op.Shutdown(); close(done) }()
+			select {
+			case <-done:
+			case <-time.After(shell_operator.WaitQueuesTimeout + 20*time.Second):
+				returned = false
+			}
+			markStop()
+		})
+		if !returned {
+			c.Oracle("shutdownreturns returned=false")
+			hangs.Add(1)
+			return
+		}
+	} else {
+		op.VerifC03Run(tune)
+	}
 	waitFor := func(cond func() bool, d time.Duration) bool {
 		deadline := time.Now().Add(d)
 		for time.Now().Before(deadline) {
@@ -307,45 +431,9 @@ func c17OperatorKube(r *Run, c *Case, rng *Rng) {
 	// the queues the operator created (correspondence with the model of initAndStartHookQueues comes below)
 	var present []int
 	for k := 0; k <= nq; k++ {
-		if op.TaskQueues.GetByName(c17QueueName(k)) != nil {
+		if op.TaskQueues.GetByName(qName(k)) != nil {
 			present = append(present, k)
 		}
-	}
-	// start-up: the main queue enables the bindings (informers are created and started, Synchronization runs)
-	if !waitFor(func() bool { return op.TaskQueues.GetMain().Length() == 0 }, 30*time.Second) {
-		c.Inconcl = "the start-up tasks of the main queue did not finish in 30 s"
-		return
-	}
-	// --- before the shutdown: a cluster change leads to an execution through every kubernetes binding
-	nextID++
-	warm := nextID
-	if !cluster(c01Ev{warm, "a", nextCs}) {
-		return
-	}
-	warmName := fmt.Sprintf("o%d", warm)
-	warmSeen := func() bool {
-		execs, _, _ := c17ReadExecs(logFile, hooks)
-		seen := map[*c17Bind]bool{}
-		for _, e := range execs {
-			if e.typ != "Event" {
-				continue
-			}
-			for _, o := range e.objs {
-				if o == warmName {
-					// contexts of several bindings of one hook in one queue are combined into one execution
-					for _, b := range e.hook.binds {
-						if b.kube && b.queueNo == e.bind.queueNo {
-							seen[b] = true
-						}
-					}
-				}
-			}
-		}
-		return len(seen) == nKube
-	}
-	if !waitFor(warmSeen, 30*time.Second) {
-		c.Inconcl = "a cluster change did not reach every kubernetes binding within 30 s before the shutdown"
-		return
 	}
 	var schedBinds []*c17Bind
 	for _, h := range hooks {
@@ -363,65 +451,142 @@ func c17OperatorKube(r *Run, c *Case, rng *Rng) {
 			return false
 		}
 	}
-	startsOf := func(h *c17Hook) int {
-		execs, _, _ := c17ReadExecs(logFile, hooks)
-		n := 0
-		for _, e := range execs {
-			if e.hook == h {
-				n++
-			}
-		}
-		return n
-	}
-	// h1 hangs in the middle of its run (2 of 3 cases), triggered through one of its bindings
-	midRun := rng.Chance(66)
+	midRun := false
 	busyQueue := -1
-	if midRun {
-		before := startsOf(hooks[0])
-		_ = os.WriteFile(filepath.Join(dir, "block-h1"), nil, 0o644)
-		b := hooks[0].binds[rng.Intn(len(hooks[0].binds))]
-		busyQueue = b.queueNo
-		ok := true
-		if b.kube {
-			_, ok = change(0)
-		} else {
-			ok = tick(b, wStepTimeout)
-		}
-		if !ok || !waitFor(func() bool { return startsOf(hooks[0]) > before }, 30*time.Second) {
-			if c.Inconcl == "" {
-				c.Inconcl = "hook h1 did not start within 30 s"
-			}
+	var took time.Duration
+	if !early {
+		// start-up: the main queue enables the bindings (informers are created and started, Synchronization runs)
+		if !waitFor(func() bool { return op.TaskQueues.GetMain().Length() == 0 }, 30*time.Second) {
+			c.Inconcl = "the start-up tasks of the main queue did not finish in 30 s"
 			return
 		}
-	}
-	// more work: cluster changes and ticks; what is aimed at the hanging hook's queue stays queued behind it;
-	// the last ones are still in flight (informer -> channel -> consumer -> queue) when Shutdown() is called
-	nAct := rng.Range(0, 6)
-	for i := 0; i < nAct; i++ {
-		if len(schedBinds) > 0 && rng.Chance(40) {
-			if !tick(schedBinds[rng.Intn(len(schedBinds))], wStepTimeout) {
-				c.Inconcl = "the events consumer did not accept a tick before the shutdown"
+		// --- before the shutdown: a cluster change leads to an execution through every kubernetes binding
+		nextID++
+		warm := nextID
+		if !cluster(c01Ev{warm, "a", nextCs}) {
+			return
+		}
+		warmName := fmt.Sprintf("o%d", warm)
+		warmSeen := func() bool {
+			execs, _, _ := c17ReadExecs(logFile, hooks)
+			seen := map[*c17Bind]bool{}
+			for _, e := range execs {
+				if e.typ != "Event" {
+					continue
+				}
+				for _, o := range e.objs {
+					if o == warmName {
+						// contexts of several bindings of one hook in one queue are combined into one execution
+						for _, b := range e.hook.binds {
+							if b.kube && b.queueNo == e.bind.queueNo {
+								seen[b] = true
+							}
+						}
+					}
+				}
+			}
+			return len(seen) == nKube
+		}
+		if !waitFor(warmSeen, 30*time.Second) {
+			c.Inconcl = "a cluster change did not reach every kubernetes binding within 30 s before the shutdown"
+			return
+		}
+		// ... and a tick leads to an execution through every schedule binding
+		for _, b := range schedBinds {
+			ran := func() bool {
+				execs, _, _ := c17ReadExecs(logFile, hooks)
+				for _, e := range execs {
+					if e.bind == b && e.typ == "Schedule" {
+						return true
+					}
+				}
+				return false
+			}
+			if !tick(b, wStepTimeout) || !waitFor(ran, 30*time.Second) {
+				c.Inconcl = "a tick did not lead to an execution within 30 s before the shutdown"
 				return
 			}
-		} else if _, ok := change(0); !ok {
-			return
 		}
-		if rng.Chance(40) {
-			time.Sleep(time.Duration(rng.Intn(15)) * time.Millisecond)
+		startsOf := func(h *c17Hook) int {
+			execs, _, _ := c17ReadExecs(logFile, hooks)
+			n := 0
+			for _, e := range execs {
+				if e.hook == h {
+					n++
+				}
+			}
+			return n
 		}
-	}
+		// h1 hangs in the middle of its run (2 of 3 cases), triggered through one of its bindings
+		midRun = rng.Chance(66)
+		if midRun {
+			before := startsOf(hooks[0])
+			_ = os.WriteFile(filepath.Join(dir, "block-h1"), nil, 0o644)
+			b := hooks[0].binds[rng.Intn(len(hooks[0].binds))]
+			busyQueue = b.queueNo
+			ok := true
+			if b.kube {
+				_, ok = change(0)
+			} else {
+				ok = tick(b, wStepTimeout)
+			}
+			if !ok || !waitFor(func() bool { return startsOf(hooks[0]) > before }, 30*time.Second) {
+				if c.Inconcl == "" {
+					c.Inconcl = "hook h1 did not start within 30 s"
+				}
+				return
+			}
+		}
+		// more work: cluster changes and ticks; what is aimed at the hanging hook's queue stays queued behind it;
+		// the last ones are still in flight (informer -> channel -> consumer -> queue) when Shutdown() is called
+		nAct := rng.Range(0, 6)
+		for i := 0; i < nAct; i++ {
+			if len(schedBinds) > 0 && rng.Chance(40) {
+				if !tick(schedBinds[rng.Intn(len(schedBinds))], wStepTimeout) {
+					c.Inconcl = "the events consumer did not accept a tick before the shutdown"
+					return
+				}
+			} else if _, ok := change(0); !ok {
+				return
+			}
+			if rng.Chance(40) {
+				time.Sleep(time.Duration(rng.Intn(15)) * time.Millisecond)
+			}
+		}
 
-	t0 := time.Now()
-	op.Shutdown() // returns when every queue shows "stop" or after WaitQueuesTimeout (shortened by the suite)
-	took := time.Since(t0)
+		t0 := time.Now()
+		op.Shutdown() // returns when every queue shows "stop" or after WaitQueuesTimeout (shortened by the suite)
+		took = time.Since(t0)
+	} // !early
 
 	// A queue that shows "stop" has no hook process any more (the handler runs the hook synchronously and
 	// the worker sets the status after its last handler returned): whatever line that queue's hooks write
 	// after the status was seen is an execution after the worker's exit — no timing assumption in that.
 	stopped := func(k int) bool {
-		q := op.TaskQueues.GetByName(c17QueueName(k))
+		q := op.TaskQueues.GetByName(qName(k))
 		return q != nil && q.GetStatus() == "stop"
 	}
+	// every queue the set has by now belongs to the property's "every queue", whatever its name is and whoever
+	// created it: names the configurations do not mention get the numbers nq+1, nq+2, ...
+	addForeign := func() {
+		var extra []string
+		for name := range c17SetQueues(op.TaskQueues) {
+			known := false
+			for _, o := range names {
+				known = known || o == name
+			}
+			if !known {
+				extra = append(extra, name)
+			}
+		}
+		sort.Strings(extra)
+		for _, name := range extra {
+			names = append(names, name)
+			want = append(want, len(names)-1)
+			c.Note("queue:not-named-by-a-binding")
+		}
+	}
+	addForeign()
 	exitPos := map[int]int{} // queue -> number of log lines when it was first seen stopped
 	observeStops := func() bool {
 		all := true
@@ -440,14 +605,17 @@ func c17OperatorKube(r *Run, c *Case, rng *Rng) {
 	observeStops()
 	// has the stop request reached every queue? (the contexts, no timing involved)
 	var heard []int
-	for k := 0; k <= nq; k++ {
-		if q := op.TaskQueues.GetByName(c17QueueName(k)); q != nil && q.VerifStopRequested() {
-			heard = append(heard, k)
+	var setNow []int
+	for k := 0; k < len(names); k++ {
+		if q := op.TaskQueues.GetByName(qName(k)); q != nil {
+			setNow = append(setNow, k)
+			if q.VerifStopRequested() {
+				heard = append(heard, k)
+			}
 		}
 	}
-	if f, err := os.OpenFile(logFile, os.O_APPEND|os.O_CREATE|os.O_WRONLY, 0o644); err == nil {
-		fmt.Fprintln(f, "STOP - -")
-		f.Close()
+	if !early {
+		markStop()
 	}
 	// cluster events and ticks keep arriving after the shutdown
 	var late []string
@@ -475,7 +643,7 @@ func c17OperatorKube(r *Run, c *Case, rng *Rng) {
 
 	// --- the model of initAndStartHookQueues / NewNamedQueue / Stop against what the operator built
 	c.Op(fmt.Sprintf("hookqueues sched=%s kube=%s", joinInts(schedNames), joinInts(kubeNames)),
-		fmt.Sprintf("queues=%s heard=%s", joinInts(present), joinInts(heard)))
+		fmt.Sprintf("queues=%s heard=%s", joinInts(setNow), joinInts(heard)))
 	// --- the property on what the implementation showed
 	c.Oracle(fmt.Sprintf("stopheard want=%s heard=%s", joinInts(want), joinInts(heard)))
 	execs, stopLine, nLines := c17ReadExecs(logFile, hooks)
@@ -530,7 +698,9 @@ func c17OperatorKube(r *Run, c *Case, rng *Rng) {
 		c.Oracle(fmt.Sprintf("shutdownwaits busy=%d early=%v", busyQueue, took < shell_operator.WaitQueuesTimeout))
 	}
 	c.Nontrivial = true
-	if midRun {
+	if early {
+		c.Note("kind:whole-operator-shutdown-during-start-up")
+	} else if midRun {
 		c.Note("kind:whole-operator-cluster-events-shutdown-mid-run")
 	} else {
 		c.Note("kind:whole-operator-cluster-events-shutdown")
